@@ -6,7 +6,7 @@ from . import _session_common as sc
 
 PROP = "C13"
 BUDGET = {"quick": 1500, "thorough": 30000}
-ALARM_S = 900
+ALARM_S = 400
 RULE = ("seeded asymmetric random models x K plan x random augmented vectors z: ode_and_sensitivity in both arrangements, "
         "ode_and_sensitivityIV, and their Jacobians against the exact block form of the reference (confirmed by central "
         "differences of PyGOM's own right-hand side before a Jacobian failure is reported); 25% of the runs integrate the "
